@@ -146,6 +146,33 @@ pub fn run_c09(r: &mut Report) {
         }
         r.case("shape-matrix", json!({"documents": n}), "all verify and are unchanged", format!("{} failures", bad), bad == 0 && n > 100);
     }
+    // every kind of representable expiry instant survives the wire: a leap second (23:59:60), the first and the last year, the epoch
+    {
+        use chrono::{NaiveDate, TimeZone, Utc};
+        use in_toto::interchange::{DataInterchange, Json, JsonPretty};
+        let k = key(1);
+        let leap = Utc.from_utc_datetime(&NaiveDate::from_ymd_opt(2016, 12, 31).unwrap().and_hms_nano_opt(23, 59, 59, 1_000_000_000).unwrap());
+        for (what, t) in [("leap second 2016-12-31T23:59:60Z", leap), ("year 1", Utc.with_ymd_and_hms(1, 1, 1, 0, 0, 0).unwrap()), ("year 9999", Utc.with_ymd_and_hms(9999, 12, 31, 23, 59, 59).unwrap()),
+                          ("epoch", Utc.with_ymd_and_hms(1970, 1, 1, 0, 0, 0).unwrap()), ("one second before the epoch", Utc.with_ymd_and_hms(1969, 12, 31, 23, 59, 59).unwrap())] {
+            let l = in_toto::models::LayoutMetadataBuilder::new().expires(t).build().unwrap();
+            let md = MetadataWrapper::Layout(l);
+            for path in ["new", "builder"] {
+                let mb = if path == "new" { Metablock::new(md.clone(), &[&k]).unwrap() } else { MetablockBuilder::from_metadata(md.clone().into_trait()).sign(&[&k]).unwrap().build() };
+                for layout in ["serde-compact", "serde-pretty", "Json::to_writer", "JsonPretty::to_writer"] {
+                    let wire: Result<Vec<u8>, String> = match layout {
+                        "serde-compact" => serde_json::to_vec(&mb).map_err(|e| e.to_string()), "serde-pretty" => serde_json::to_vec_pretty(&mb).map_err(|e| e.to_string()),
+                        "Json::to_writer" => { let mut w = vec![]; Json::to_writer(&mut w, &mb).map_err(|e| e.to_string()).map(|_| w) }
+                        _ => { let mut w = vec![]; JsonPretty::to_writer(&mut w, &mb).map_err(|e| e.to_string()).map(|_| w) } };
+                    let back: Result<Metablock, String> = wire.and_then(|w| serde_json::from_slice::<Metablock>(&w).map_err(|e| e.to_string()));
+                    let ok = matches!(&back, Ok(b) if matches!(no_panic(|| b.verify(1, [k.public()])), Ok(Ok(_))) && b.metadata == md);
+                    if !ok || (path == "new" && layout == "serde-compact") {
+                        r.case("expiry-kinds-on-the-wire", json!({"expires": what, "path": path, "layout": layout}), "verifies after the wire and carries the same instant",
+                               format!("{:?}", back.as_ref().map(|b| (b.verify(1, [k.public()]).is_ok(), b.metadata == md)).map_err(|e| e.clone())), ok);
+                    }
+                }
+            }
+        }
+    }
     // every single control character, DEL and the two escapes, on its own, through the crate's own writers and back
     {
         use in_toto::interchange::{DataInterchange, Json, JsonPretty};
